@@ -153,3 +153,28 @@ def jobs(tier, seed):
                     jobs.append({"harness": "concat", "params": {"cfg": cfg, "a": sa, "b": sb, "spec": spec, "name": f"{an}+{bn}"},
                                  "weight": 10, "cpu_cap": 1500, "wall_cap": 2400})
     return jobs
+
+
+def thorough_extra(seed):
+    jobs = []
+    spec = {n: dict(NOTAB) for n in "abcdefgh"}
+    for cb in CONC_B[4:]:
+        jobs.append({"harness": "concat", "params": {"cfg": JS, "a": free_doc(2, "\n"), "b": [cb], "spec": spec, "name": "freeA"}, "weight": 8})
+    for cb in ("b\n", "- b\n"):
+        for name, extra in shard_extras("a", exclude="\t\r\0"):
+            sp = {k: dict(v) for k, v in spec.items()}
+            sp["a"] = dict(sp["a"], extra=extra)
+            jobs.append({"harness": "concat", "params": {"cfg": JS, "a": free_doc(3, "\n"), "b": [cb], "spec": sp, "name": "freeA3", "shard": name}, "weight": 20})
+    for an, sa in A_MENU:
+        if an not in ("para", "tight-list", "quote-lazy", "setext", "table", "nested", "nested-list"):
+            jobs.append({"harness": "concat", "params": {"cfg": JS, "a": [p if isinstance(p, str) else "x" for p in sa],
+                                                          "b": [{"v": "c"}, {"v": "d"}, "\n"], "spec": spec, "name": f"freeB-{an}"}, "weight": 8})
+        for bn, sb in B_MENU:
+            # one free character on each side
+            jobs.append({"harness": "concat", "params": {"cfg": JS, "a": sa, "b": sb, "spec": spec, "name": f"{an}+{bn}"}, "weight": 10})
+    for an, sa in A_MENU:
+        jobs.append({"harness": "concat", "params": {"cfg": CM, "a": sa, "b": ["y\n"], "spec": spec, "name": f"{an}+para-cm"}, "weight": 2})
+    for j in jobs:
+        j["cpu_cap"] = 3000
+        j["wall_cap"] = 4000
+    return jobs
